@@ -14,7 +14,7 @@ class Gen:
         self.in_fn = 0
         self.in_loop = 0
         self.ncb = 0                  # number of callback call sites emitted (upper bound on invocations is dynamic)
-        self.feat = dict(tryc=True, fns=True, lambdas=True, cbs=True, errors=True, refs=True, vecs=False, globals=False, strs=False, trybias=False)
+        self.feat = dict(tryc=True, fns=True, lambdas=True, cbs=True, errors=True, refs=True, vecs=False, globals=False, strs=False, trybias=False, optbias=False)
         if feat:
             self.feat.update(feat)
         self.hist = {}
@@ -100,6 +100,8 @@ class Gen:
         ints = self.vars_of("int", writable=True)
         if depth >= self.maxdepth:
             k = r.choice([0, 1, 2, 3, 4])
+        elif self.feat["optbias"] and r.chance(1, 3):
+            return self.opt_stmt(depth)
         if k == 0 or (k < 3 and not ints):
             n = self.fresh()
             if r.chance(1, 4):
@@ -177,6 +179,94 @@ class Gen:
             self.declare(n, "int")
             return "(eq = (ref %s) (id %s))" % (n, r.choice(ints))
         return "(print %s)" % self.int_expr()
+
+    def const_bool(self, d=0):
+        r = self.rng
+        k = r.below(6)
+        if k < 2 or d >= 2:
+            return "(bool %d)" % r.below(2)
+        if k == 2:
+            return "(pre not %s)" % self.const_bool(d + 1)
+        if k == 3:
+            return "(%s %s %s)" % (r.choice(["and", "or"]), self.const_bool(d + 1), self.const_bool(d + 1))
+        return "(bin %s (int %d) (int %d))" % (r.choice(["<", "==", "!=", ">="]), r.range(-3, 3), r.range(-3, 3))
+
+    def const_int(self, d=0):
+        r = self.rng
+        if d >= 2 or r.chance(1, 2):
+            return "(int %d)" % r.range(-3, 6)
+        return "(bin %s %s %s)" % (r.choice(["+", "-", "*", "/", "%"]), self.const_int(d + 1), self.const_int(d + 1))
+
+    def opt_stmt(self, depth):
+        """statements shaped to trigger the optimizer's passes"""
+        r = self.rng
+        k = r.below(9)
+        ints = self.vars_of("int")
+        if k == 0:
+            self.note("opt-if-const")
+            if r.chance(1, 2):
+                return "(if %s %s %s)" % (self.const_bool(), self.block(depth), self.block(depth))
+            return "(if %s %s)" % (self.const_bool(), self.block(depth))
+        if k == 1:
+            self.note("opt-dead-code")
+            # a block sprinkled with constants and bare names, declaring nothing
+            self.scopes.append({})
+            items = []
+            for _ in range(r.range(1, 4)):
+                c = r.below(5)
+                if c == 0:
+                    items.append(self.const_int())
+                elif c == 1:
+                    items.append(self.const_bool())
+                elif c == 2 and ints:
+                    items.append("(id %s)" % r.choice(ints))
+                elif c == 3 and self.feat["cbs"]:
+                    items.append("(cb %d %s)" % (r.below(4), self.int_expr()))
+                else:
+                    items.append("(print %s)" % self.int_expr())
+            self.scopes.pop()
+            return "(block %s)" % " ".join(items)
+        if k == 2:
+            self.note("opt-nested-blocks")
+            return "(block (block %s) %s)" % (self.stmt(depth + 2), self.stmt(depth + 2))
+        if k in (3, 4, 5):
+            # the counting loop the For_Loop pass compiles; bounds may be foldable expressions, the counter may be written and captured
+            self.note("opt-for")
+            c = self.fresh()
+            lo, hi = r.choice(["(int 0)", "(int 1)", self.const_int()]), r.choice(["(int 2)", "(int 3)", self.const_int()])
+            pre = []
+            self.scopes.append({c: "ctr"})
+            self.in_loop += 1
+            extra = []
+            fn = None
+            if r.chance(1, 4):
+                # the body may move the counter forward (never backward: the loop must end)
+                extra.append(r.choice(["(pre inc (id %s))", "(eq += (id %s) (int 1))", "(eq += (id %s) (int 2))"]) % c)
+            if self.feat["lambdas"] and r.chance(1, 2):
+                # a closure over the loop variable that outlives the loop
+                self.note("opt-for-capture")
+                fn = self.fresh()
+                pre.append("(decl %s (lambda () () (block (int 0))))" % fn)
+                extra.append("(eq = (id %s) (lambda (%s) () (block (id %s))))" % (fn, c, c))
+            body = self.block(depth, extra_first=extra, n=r.range(0, 2))
+            self.in_loop -= 1
+            self.scopes.pop()
+            loop = "(for (decl %s %s) (bin < (id %s) %s) (pre inc (id %s)) %s)" % (c, lo, c, hi, c, body)
+            if fn:
+                return "(block %s %s (print (call (id %s))))" % (" ".join(pre), loop, fn)
+            return loop
+        if k == 6 and self.feat["fns"]:
+            fs = [f for f, a in self.funs.items() if a <= 2]
+            if fs:
+                self.note("opt-unused-call")
+                f = r.choice(fs)
+                return "(block (call (fid %s) %s) %s)" % (f, " ".join(self.int_expr() for _ in range(self.funs[f])), self.stmt(depth + 2))
+        if k == 7:
+            self.note("opt-while-single")
+            c = self.fresh()
+            return "(block (decl %s (int 0)) (while (bin < (pre inc (id %s)) (int %d)) (block (print (id %s)))))" % (c, c, r.range(1, 3), c)
+        self.note("opt-const-expr")
+        return "(print %s)" % (self.const_int() if r.chance(1, 2) else self.const_bool())
 
     def thrown_expr(self):
         r = self.rng
